@@ -912,6 +912,21 @@ def _equality_case(ctx, regime, pool):
     if variant == "zeros":
         t = G.build_term(T, base[0])
         z = [S(), t - t, S([t.copy(0)]).simplify(), t * 0, T(dict(base[-1][0]), 0), T("I0", 0.0)]
+        # the zero operator reached by a zero scalar on either side of a SUM that library arithmetic produced (and was
+        # therefore simplified once already), simplified again: every one of them is the zero operator
+        terms_ = [G.build_term(T, s_) for s_ in base]
+        sm = terms_[0] + 0
+        for t_ in terms_[1:]:
+            sm = sm + t_
+        k0 = rng.choice([0, 0.0, 0j, -0.0])
+        made = [(k0 * sm).simplify(), (sm * k0).simplify(), (k0 * sm.simplify()).simplify(), (k0 * (sm * 2)).simplify()]
+        for x in made:
+            # what simplify() returns IS a simplified operator, whatever its term list looks like: it denotes the zero
+            # matrix, so it equals the empty sum (both ways round)
+            ok = bool(x == S()) and bool(S() == x)
+            ctx.check("simplified-zero-equals-empty-sum", ok,
+                      lambda: f"({k0!r} * {G.fmt_sum(base)}).simplify() = {x!r} does not compare equal to the empty sum")
+        z += made
         for i in range(len(z)):
             for j in range(i + 1, len(z)):
                 _eq_both(ctx, z[i], z[j])
